@@ -112,10 +112,26 @@ def check_group(V, ctr, universe, sources, result_real, source_reals, exp_state,
             before = [explore.visible(x) for x in g2]
             try:
                 explore.apply_real(g2[target], op)
+                raised = False
             except Exception:
-                pass
+                raised = True
             ctr['calls'] += 1
             ctr['followup_edits'] += 1
+            # the edited object (a result is a definition like any other) follows the model
+            try:
+                want = tm.triple(tm.apply(states[target], op)[0])
+                rejected = False
+            except tm.Reject:
+                want, rejected = tm.triple(states[target]), True
+            except tm.Open:
+                want = None
+            if want is not None:
+                got_t = explore.visible(g2[target])
+                if got_t != want or (rejected and not raised) or (not rejected and raised):
+                    bad('edit-after-derivation', want, got_t,
+                        edited=('result' if target == len(group) - 1 else f'operand{target}'),
+                        edit=explore.enc_op(op))
+                    return
             for k in range(len(g2)):
                 if k == target:
                     continue
@@ -157,6 +173,11 @@ def run_derived(shard, tier):
                             {'operation': name, 'operand': _tj(s)}, reduced=False)
             osel = [None] + [sel for sel in tm.ordered_subsets(s[0])]
             psel = [None] + [sel for sel in tm.ordered_subsets(s[1])]
+            # selections that repeat a name (same length as / longer than the axis)
+            osel += [sel + sel[:1] for sel in tm.ordered_subsets(s[0]) if sel] + \
+                    [sel[:1] * len(s[0]) for sel in [s[0]] if len(s[0]) > 1]
+            psel += [sel + sel[:1] for sel in tm.ordered_subsets(s[1]) if sel] + \
+                    [sel[:1] * len(s[1]) for sel in [s[1]] if len(s[1]) > 1]
             for o, p, reorder in itertools.product(osel, psel, (False, True)):
                 exp = tm.take(s, o, p, reorder)
                 real = explore.make_real(s)
